@@ -26,6 +26,7 @@ func c11(c *eng.Ctx, r *eng.Report) {
 		"R11.9 a write attempt in read-only context surfaces as ErrWriteProtection: Run refuses rows flagged `writes` under the interpreter-wide in.readOnly flag (not the frame argument) before operation.execute, and the flag is sticky across nested frames (shared with C12). " +
 		"R11.10 callGas/authCallGas return min(request, a - a/64) with a = available - base, and the four call-family gas functions call callGas(true, contract.Gas, …). " +
 		"R11.11 a precompile runs only after the caller paid for it, and the price compared with the supplied gas is RequiredGas(input) itself — no unchecked arithmetic between pricing and the affordability test (the precompiles size their allocations from the input on the strength of that price: MODEXP allocates what the header announces); " +
+		"R11.19 a zero-length memory operand touches nothing: in every Memory accessor that takes a size (Set, GetCopy, GetPtr, Copy) each slice expression over the backing store is dominated by the test that the size is non-zero — a zero-length range has memory size 0 whatever its offset, so nothing has bounded the offset (LOG0 or CREATE with offset 2^63 and size 0 reach GetCopy with a negative offset); " +
 		"R11.18 the fixed-width word setters get the bytes they read: every (*uint256.Int).SetBytesN(b) call in the vm package (SetBytes32 reads b[31] unconditionally) is handed a slice whose length is statically at least N — a slice of an array of N or more bytes, or a make of constant length; finding F28: BLOBHASH called SetBytes32 with an empty slice and PUSH1 0, BLOBHASH panicked through EVM.Call; " +
 		"R11.17 the price table a fork adjusts belongs to one interpreter: every value stored in EVMInterpreter.jumpTable is the result of a newInstructionSet() call made for that interpreter, and newInstructionSet takes no operation from a package-level variable — doProposal014/022/026 write through the table's *operation pointers (constantGas *= 30), so a table or entry shared between interpreters is re-priced once per EVM until the prices wrap to zero and gas no longer bounds a loop; " +
 		"R11.16 no function of the vm package reads a byte of the running contract's code at a position it has not compared with the code length: every index into Contract.Code by a non-constant position p+k is dominated by a guard on the same p that implies p+k < len(code) — `p+a < len` with k <= a, or `len-p >= m` (p the untouched program counter, which is below len when a handler runs) with k < m; a truncated PUSH at the end of the code reads zeroes, it does not index past the end; " +
@@ -51,6 +52,7 @@ func c11(c *eng.Ctx, r *eng.Report) {
 	c11CodeIndexGuarded(c, r)
 	c11OwnJumpTable(c, r)
 	c11FixedWidthSetBytes(c, r)
+	c11ZeroSizeTouchesNothing(c, r)
 	c11ModulusNonZero(c, r)
 	c11UnsignedSign(c, r)
 	c11CodeHashOfCode(c, r)
@@ -1643,5 +1645,69 @@ func c11FixedWidthSetBytes(c *eng.Ctx, r *eng.Report) {
 	}
 	if n == 0 {
 		r.Pass(rule, "set-bytes:none", "", "no fixed-width SetBytesN call in package vm")
+	}
+}
+
+// c11ZeroSizeTouchesNothing: see R11.19.
+func c11ZeroSizeTouchesNothing(c *eng.Ctx, r *eng.Report) {
+	const rule = "R11.19"
+	r.Min(rule, 3)
+	for _, fn := range c.PkgFuncs("vm") {
+		if fn.Signature.Recv() == nil || !strings.HasSuffix(fn.Signature.Recv().Type().String(), "vm.Memory") {
+			continue
+		}
+		var size *ssa.Parameter
+		for _, p := range fn.Params {
+			switch p.Name() {
+			case "size", "length", "len":
+				size = p
+			}
+		}
+		if size == nil {
+			continue
+		}
+		n, bad := 0, ""
+		for _, b := range fn.Blocks {
+			for _, in := range b.Instrs {
+				sl, ok := in.(*ssa.Slice)
+				if !ok {
+					continue
+				}
+				ld, isLd := sl.X.(*ssa.UnOp)
+				if !isLd {
+					continue
+				}
+				if _, f := eng.FieldOf(ld.X); f != "store" {
+					continue
+				}
+				n++
+				guarded := false
+				for _, cd := range eng.EdgeConds(b) {
+					m, isM := cd.Cmp()
+					if !isM {
+						continue
+					}
+					x, y, op := m.X, m.Y, m.Op
+					if y == ssa.Value(size) {
+						x, y = y, x
+						if op == token.LSS {
+							op = token.GTR
+						}
+					}
+					if x == ssa.Value(size) {
+						if k, isK := eng.ConstInt(y); isK && k == 0 && (op == token.NEQ || op == token.GTR) {
+							guarded = true
+						}
+					}
+				}
+				if !guarded {
+					bad = c.Pos(sl.Pos())
+				}
+			}
+		}
+		if n == 0 {
+			continue
+		}
+		r.Check(bad == "", rule, "zero-size:"+eng.FuncName(fn), c.Pos(fn.Pos()), fmt.Sprintf("%d slice expression(s) over the store, each under size != 0", n), eng.FuncName(fn)+" slices the memory store at "+bad+" without having established that the size is non-zero: for a zero-length operand nothing bounded the offset (its memory size is 0), the call sites pass int64(offset.Uint64()), and an offset of 2^63 or more arrives negative, passes the length test and makes the slice expression panic — LOG0/CREATE/CREATE2 with size 0 and offset 2^63 crash the host")
 	}
 }
